@@ -7,6 +7,7 @@ package main
 import (
 	"fmt"
 	"math"
+	"math/big"
 	"reflect"
 	"sort"
 	"strings"
@@ -387,6 +388,7 @@ func tvUniverse() []*pb.TypedValue {
 		{Value: &pb.TypedValue_DoubleVal{DoubleVal: 1}}, {Value: &pb.TypedValue_DoubleVal{DoubleVal: 2}}, {Value: &pb.TypedValue_DoubleVal{DoubleVal: math.NaN()}},
 		{Value: &pb.TypedValue_DoubleVal{DoubleVal: 0}}, {Value: &pb.TypedValue_DoubleVal{DoubleVal: math.Copysign(0, -1)}},
 		{Value: &pb.TypedValue_DecimalVal{DecimalVal: &pb.Decimal64{Digits: 1, Precision: 0}}}, {Value: &pb.TypedValue_DecimalVal{DecimalVal: &pb.Decimal64{Digits: 10, Precision: 1}}}, {Value: &pb.TypedValue_DecimalVal{DecimalVal: &pb.Decimal64{}}},
+		{Value: &pb.TypedValue_DecimalVal{DecimalVal: &pb.Decimal64{Digits: 16777216, Precision: 0}}}, {Value: &pb.TypedValue_DecimalVal{DecimalVal: &pb.Decimal64{Digits: 167772170, Precision: 1}}}, {Value: &pb.TypedValue_DecimalVal{DecimalVal: &pb.Decimal64{Digits: 12345678, Precision: 3}}}, {Value: &pb.TypedValue_DecimalVal{DecimalVal: &pb.Decimal64{Digits: -1, Precision: 0}}},
 		leaf(), leaf(i1), leaf(i1, i2), leaf(i2, i1), leaf(s1), leaf(leaf(i1)), leaf(leaf()), leaf(&pb.TypedValue{}),
 		{Value: &pb.TypedValue_JsonVal{JsonVal: []byte("1")}}, {Value: &pb.TypedValue_JsonIetfVal{JsonIetfVal: []byte("1")}},
 		{Value: &pb.TypedValue_AsciiVal{AsciiVal: "1"}}, {Value: &pb.TypedValue_ProtoBytes{ProtoBytes: []byte("1")}},
@@ -425,11 +427,23 @@ func specEqual() seqmc.Spec {
 		if ab != ba {
 			return desc, true, vio(class+"-asymmetric", "%s = %v but with swapped arguments %v", desc, ab, ba)
 		}
-		if ab && !proto.Equal(a, b) {
+		if ab && !proto.Equal(a, b) && !sameDecimal(a, b) {
 			return desc, true, vio("equal-unsound", "%s reports two different values as equal", desc)
 		}
 		return desc, ab, nil
 	}}
+}
+
+// sameDecimal: two decimals that denote the same number (digits / 10^precision)
+// are the same value whatever their encoding.
+func sameDecimal(a, b *pb.TypedValue) bool {
+	da, db := a.GetDecimalVal(), b.GetDecimalVal()
+	if da == nil || db == nil {
+		return false
+	}
+	ra := new(big.Rat).SetFrac(big.NewInt(da.Digits), new(big.Int).Exp(big.NewInt(10), big.NewInt(int64(da.Precision)), nil))
+	rb := new(big.Rat).SetFrac(big.NewInt(db.Digits), new(big.Int).Exp(big.NewInt(10), big.NewInt(int64(db.Precision)), nil))
+	return ra.Cmp(rb) == 0
 }
 
 func catch(f func()) (p interface{}) {
